@@ -221,7 +221,12 @@ func (r *CrashRun) verifyState(cs *crashState) *Violation {
 		rs, _ = RawConsistency(h, prop)
 	}
 	// the store accepts writes: change positions strictly increase, internal ids are not reused
-	names := cands[matched].Names()
+	var names []string
+	for _, n := range cands[matched].Names() {
+		if n != "core.Dataset" {
+			names = append(names, n)
+		}
+	}
 	if len(names) > 0 {
 		ds := h.Dataset(names[0])
 		fresh := []Ent{{"id": MkE + "postcrash1", "props": map[string]any{MkS + "a0": "x"}, "refs": map[string]any{MkS + "postpred": MkE + "postcrash2"}},
@@ -283,8 +288,29 @@ func (r *CrashRun) checkAgainst(h *Hub, m *Model) *Violation {
 		}
 	}
 	sort.Strings(have)
-	if strings.Join(have, ",") != strings.Join(m.Names(), ",") {
-		return viol(r.Sc.Property, "state", "dataset-list", "datasets are %v, expected %v", have, m.Names())
+	var expNames []string
+	for _, n := range m.Names() {
+		if n != "core.Dataset" {
+			expNames = append(expNames, n)
+		}
+	}
+	if strings.Join(have, ",") != strings.Join(expNames, ",") {
+		return viol(r.Sc.Property, "state", "dataset-list", "datasets are %v, expected %v", have, expNames)
+	}
+	if cd := m.DS["core.Dataset"]; cd != nil {
+		// what the scenario's transactions wrote into core.Dataset, next to the hub's own meta-entities there: judged by
+		// scoped lookups (all-or-nothing with the other datasets of the transaction)
+		for _, id := range r.Pool {
+			full := markerToFull(id)
+			got, err := h.Store.GetEntity(h.curie(id), []string{"core.Dataset"}, true)
+			if err != nil {
+				return viol(r.Sc.Property, "state", "lookup-error", "lookup %s in core.Dataset: %v", id, err)
+			}
+			if v := compareScoped(h, cd, "core.Dataset", full, cd.LatestOf(full), got); v != nil {
+				v.Signature = "core.Dataset-part:" + v.Signature
+				return v
+			}
+		}
 	}
 	if r.Sc.Property == "C07" {
 		// nothing of a deleted dataset may show up in merged lookups either
@@ -295,7 +321,7 @@ func (r *CrashRun) checkAgainst(h *Hub, m *Model) *Violation {
 			}
 		}
 	}
-	for _, n := range m.Names() {
+	for _, n := range expNames {
 		if h.Dataset(n) == nil {
 			return viol(r.Sc.Property, "state", "dataset-missing", "dataset %s missing", n)
 		}
@@ -307,8 +333,11 @@ func (r *CrashRun) checkAgainst(h *Hub, m *Model) *Violation {
 		}
 	}
 	scopes := [][]string{nil}
-	for _, n := range m.Names() {
+	for _, n := range expNames {
 		scopes = append(scopes, []string{n})
+	}
+	if m.DS["core.Dataset"] != nil {
+		scopes = scopes[1:] // unscoped queries would also see what the transactions wrote into core.Dataset
 	}
 	v, q := CheckRelations(h, m, r.Pool, r.Preds, scopes, nil, r.knownReporter())
 	r.Stats["queries"] += int64(q)
@@ -389,6 +418,13 @@ func RunCrashScenario(sc *Scenario) (vd *Verdict) {
 			return errInjected
 		}
 		return nil
+	}
+	for _, op := range sc.Ops {
+		for _, p := range op.Parts {
+			if p.DS == "core.Dataset" && r.M.DS["core.Dataset"] == nil {
+				r.M.Create("core.Dataset")
+			}
+		}
 	}
 	r.models = []*Model{r.M.Clone()}
 	r.memAfter = []*NSMem{r.mem.Clone()}
@@ -694,6 +730,9 @@ func RunCrashScenario(sc *Scenario) (vd *Verdict) {
 			r.ev("%s failed(injected)", op.K)
 			// a rejected write must be entirely absent
 			for _, n := range touched {
+				if n == "core.Dataset" {
+					continue // judged by checkAgainst below (lookups only: the hub keeps its own entities there)
+				}
 				if v := CheckLatest(r.H, r.M, n, r.Pool, nil); v != nil {
 					v.Oracle, v.Signature = "failed-write-visible", "after-injected-error:"+v.Signature
 					fail(v, i)
